@@ -427,6 +427,60 @@ def run_case(desc) -> Result:  # noqa: C901, PLR0911, PLR0912, PLR0914, PLR0915
             got=[complex(x) for x in ih], want=[complex(x) for x in ic],
         )
     labels.append("differential_done")
+
+    # ---- oracle 3: canonical model whose coefficient names carry no LS (parity partners share a coefficient) ----
+    # The Clebsch-Gordan coefficients carry the parity sign, so every chain of such a model must be its coefficient
+    # times the reference canonical chain amplitude up to ONE sign per coefficient (a chain-dependent sign on top
+    # of the CG product counts the parity factor twice).
+    prep_n = prepare(_freeze_spins(rdesc_c, built_h), dict(DEFAULT_CONFIG, ls=False, child_hel=True,
+                                                            parent_hel=desc["parent_hel"]))
+    if prep_n is not None and _particle_signature(prep_n.reaction) == _particle_signature(reaction_h):
+        model_n = formulate(prep_n)
+        trans_n = list(prep_n.reaction.transitions)
+        names_n = ["A_{" + prep_n.builder.naming.generate_amplitude_name(t) + "}" for t in trans_n]
+        if len(set(names_n)) == len(names_n) and all(n in model_n.components for n in names_n):
+            comps_n = [model_n.components[n] for n in names_n]
+            coeff_n = []
+            for n, c in zip(names_n, comps_n):
+                syms = sorted((x for x in c.free_symbols if x.name.startswith("C_")), key=str)
+                if len(syms) != 1:
+                    return violation("canonical_coefficient_symbols", True, labels, component=n, got=[x.name for x in syms])
+                coeff_n.append(syms[0])
+            ones_n = dict(values)
+            for c in comps_n:
+                for x in c.free_symbols:
+                    if x.name not in ones_n:
+                        ones_n[x.name] = draw_values([x], rng, n_points)[x]
+            for x in set(coeff_n):
+                ones_n[x.name] = np.ones(n_points, dtype=complex)
+            vals_n = under_test("evaluate_components_canonical", _evaluate, model_n, comps_n, ones_n, n_points)
+
+            def pv_n(k):
+                return {name: (v[k] if np.ndim(v) else v) for name, v in ones_n.items()}
+
+            sign_of: dict = {}
+            shared = 0
+            for t, n, x, got in zip(trans_n, names_n, coeff_n, vals_n):
+                want = np.array([ref.chain_amplitude(t, pv_n(k), True) for k in range(n_points)])
+                scale = np.maximum(1.0, np.abs(want))
+                if float(np.max(np.abs(want))) < 1e-9 and float(np.max(np.abs(got))) < 1e-9:
+                    continue
+                if np.all(np.abs(got - want) <= TOL * scale):
+                    sg = 1
+                elif np.all(np.abs(got + want) <= TOL * scale):
+                    sg = -1
+                else:
+                    return violation("canonical_chain_amplitude_differs", True, labels, component=n,
+                                     got=[complex(v) for v in got], want=[complex(v) for v in want])
+                if x in sign_of:
+                    shared += 1
+                    if sign_of[x][0] != sg:
+                        return violation("canonical_parity_factor_counted_twice", True, labels, coefficient=x.name,
+                                         chains=[sign_of[x][1], n], signs=[sign_of[x][0], sg])
+                else:
+                    sign_of[x] = (sg, n)
+            if shared:
+                labels.append("canonical_without_ls_names:shared_coefficients")
     return ok(nontrivial, labels, n_pairs=n_pairs, n_single_flip=n_single_flip,
               n_helicity_chains=len(transitions), n_canonical_chains=len(trans_c), intensity=[float(x.real) for x in ic])
 
